@@ -58,6 +58,14 @@ class Deadlines(srv.SrvHarness):
                  oracles=O, bound=2 if quick else 3, cap=100000 if quick else 1000000),
             dict(topo='single', capacity=1, gated=['A'], calls=[[[0, 5, False]], [[1, 2, False]], [[2, 3, False]]],
                  oracles=O, bound=1 if quick else 2, cap=100000 if quick else 1000000),
+            # a slow worker (the environment holds each call for up to 1.5 virtual seconds): a waiter is woken, loses the
+            # freed slot to a competitor, waits again - in total never longer than its own timeout
+            dict(topo='single', capacity=1, gated=['A'], env_wait=True, env_wait_t=1.5,
+                 calls=[[[0, 10, False]], [[1, 10, False]], [[2, 3, False]]],
+                 oracles=O, bound=1 if quick else 2, cap=100000 if quick else 1000000),
+            dict(topo='single', capacity=1, gated=['A'], env_wait=True, env_wait_t=1.0,
+                 calls=[[[0, 10, False], [3, 10, False]], [[2, 2.5, False]], [[1, 10, False]]],
+                 oracles=O, bound=1 if quick else 2, cap=100000 if quick else 1000000),
         ]
 
 
@@ -91,6 +99,12 @@ class AsyncOvershoot(srv.ASrvHarness):
             dict(topo='single', capacity=1, calls=[[[0, 10, True]], [[1, 10, False]], [[2, 10, True]]],
                  oracles=O, bound=1 if quick else 2, cap=100000 if quick else 1000000),
             dict(topo='single', capacity=1, gated=['A'], fail={'A': [1]}, calls=[[[0, 10, False]], [[1, 10, False]], [[2, 3, False]]],
+                 oracles=O + ['timing'], bound=1 if quick else 2, cap=100000 if quick else 1000000),
+            dict(topo='single', capacity=1, gated=['A'], env_wait=True, env_wait_t=1.5,
+                 calls=[[[0, 10, False]], [[1, 10, False]], [[2, 3, False]]],
+                 oracles=O + ['timing'], bound=1 if quick else 2, cap=100000 if quick else 1000000),
+            dict(topo='single', capacity=1, gated=['A'], env_wait=True, env_wait_t=1.0,
+                 calls=[[[0, 10, False], [3, 10, False]], [[2, 2.5, False]], [[1, 10, False]]],
                  oracles=O + ['timing'], bound=1 if quick else 2, cap=100000 if quick else 1000000),
         ]
 
